@@ -218,6 +218,9 @@ class VTKWriter:
             coords = self.mesh.coords[self.outputNodes]
             nnodes = coords.shape[0]
 
+            # pad copies of the fields, so that the writer's own records
+            # are unchanged and a later write gives the same file
+            fieldsToWrite = {}
             for field in self.nodalFields:
                 fieldRecord = self.nodalFields[field]
                 for sphere in self.spheres:
@@ -227,18 +230,18 @@ class VTKWriter:
                                                       fieldRecord.fieldType,
                                                       fieldRecord.dataType)
                     
-                self.nodalFields[field] = fieldRecord
+                fieldsToWrite[field] = fieldRecord
 
             if len(self.spheres) > 0:
                 vals = np.zeros( (nnodes,) )
                 vals = np.hstack( (vals, np.array(self.sphereRadii) ) )
-                self.nodalFields['sphere_radius'] = self.VTKFieldRecord(vals.reshape(vals.shape[0],1),
-                                                                        VTKFieldType.SCALARS,
-                                                                        VTKDataType.DOUBLE)
+                fieldsToWrite['sphere_radius'] = self.VTKFieldRecord(vals.reshape(vals.shape[0],1),
+                                                                     VTKFieldType.SCALARS,
+                                                                     VTKDataType.DOUBLE)
         
                 
             vtkFile.write('POINT_DATA {}\n'.format(nnodes + len(self.spheres)))
-            self._write_out_all_fields_in_dict(self.nodalFields, vtkFile)
+            self._write_out_all_fields_in_dict(fieldsToWrite, vtkFile)
             
         
     def _write_cell_fields(self, vtkFile):
